@@ -34,7 +34,7 @@ echo "check exit=$RC"
 mkdir -p $DST && cp $OUT/patch.diff $OUT/meta.json $DST/ && cp $DEMOFILE $DST/demo_test.go
 python3 - <<PY
 import json
-m=json.load(open('$DST/meta.json')); m['checked_with']='./bin/vcheck $CHECK --tier $TIER'; m['check_exit']=$RC; m['detected']=($RC==1)
+m=json.load(open('$DST/meta.json')); m['base_commit']='$(git -C /repo rev-parse --short HEAD)'; m['checked_with']='./bin/vcheck $CHECK --tier $TIER'; m['check_exit']=$RC; m['detected']=($RC==1)
 json.dump(m,open('$DST/meta.json','w'),indent=1)
 PY
 git -C /repo worktree remove --force $W; rm -rf $W $WOUT
